@@ -285,6 +285,10 @@ func classify(err error) string {
 		return "fmt:3"
 	case strings.HasPrefix(msg, "unsupported magic byte"):
 		return "fmt:4"
+	case strings.HasPrefix(msg, "invalid number of api versions"):
+		return "fmt:5"
+	case strings.HasPrefix(msg, "invalid number of aborted transactions"):
+		return "fmt:6"
 	}
 	msg = strings.ReplaceAll(msg, " ", "_")
 	if len(msg) > 60 {
